@@ -223,7 +223,16 @@ impl Feig {
                     }
                     return Ok(vec![receipt_no]);
                 }
-                _ => bail!(Error::UnexpectedPacket),
+                // The Completion terminates the sequence, so the connection
+                // stays in sync when we give up here.
+                sequences::PartialReversalResponse::CompletionData(_) => {
+                    bail!(Error::UnexpectedPacket)
+                }
+                // Everything else (intermediate status, print lines, ...) is
+                // not final: we must keep reading until the PT is done,
+                // otherwise the next command is written into a half finished
+                // sequence.
+                _ => {}
             }
         }
 
